@@ -32,7 +32,7 @@ def run(ck):
     ck.rule("C03-O6", "the worker is created without a parent and moved to the thread before the thread starts")
     ck.rule("C03-O7", "a null source-location pointer stays null in the copy")
     copy_ctor(ck)
-    for inst in sorted([f for f in F.fn_all(OT + "::process") if f.d.get("inst")], key=lambda f: f.name):
+    for inst in sorted([F.flat(f) for f in F.fn_all(OT + "::process") if f.d.get("inst")], key=lambda f: f.name):
         handoff(ck, inst)
     ck.require(len([f for f in F.fn_all(OT + "::process") if f.d.get("inst")]) >= 2, "OwnThreadHandler instantiations not found")
 
@@ -42,7 +42,7 @@ def copy_ctor(ck):
     rec = F.record(LM)
     cc = [f for f in F.fn_all(LM + "::LogMessage") if f.d.get("copyctor")]
     ck.require(len(cc) == 1, "LogMessage copy constructor not found")
-    cc = cc[0]
+    cc = F.flat(cc[0])
     ck.touch(cc)
     src = cc.params[0]["decl"]
     fields = [f["name"] for f in rec["fields"]]
@@ -89,9 +89,9 @@ def context_init(ck, cc, e, src, fields):
         is_srcptr = lambda n, what=what: src_ctx(n, src, what)
         vals = {}
         for nonnull in (True, False):
-            leaf = resolve_value(a[idx], atom_eq(is_srcptr, nonnull))
+            leaf = resolve_value(a[idx], atom_eq(is_srcptr, nonnull), cc)
             vals[nonnull] = leaf
-        own_ok = lambda leaf: is_call(leaf, ("QByteArray::constData", "QByteArray::data")) and is_this_field(skip_copies(leaf).get("obj"), LM + "::" + own)
+        own_ok = lambda leaf: is_call(leaf, ("QByteArray::constData", "QByteArray::data")) and is_this_field(deref_local(cc, skip_copies(leaf).get("obj")), LM + "::" + own)
         dangling = any(src_ctx(v, src, what) for v in vals.values())
         if dangling:
             ck.ob("C03-O1", sitestr(cc, a[idx]), False, "the copy's %s pointer is the source's pointer: it dangles as soon as the caller's buffer is freed" % what, key="LogMessage(copy)|dangling|%s" % what)
@@ -177,7 +177,7 @@ def handoff(ck, proc):
         ok = g.dominated(ps, {g.site_of(i)}) and one and g.site_of(i) in live_w and g.site_of(i) not in g.live(g.projector(atom_eq(isw, False)))
         ck.ob("C03-O5", sitestr(proc, i), ok, "%s: pending += 1 before the post, only on the asynchronous branch" % tag if ok else "%s: increment does not precede the post exactly on the asynchronous branch" % tag, key="OwnThreadHandler::process|increment")
     # consumer side
-    ce = [f for f in F.fns.values() if f.cls and f.cls.startswith(cls + "::Worker") and f.name.endswith("::customEvent")]
+    ce = [F.flat(f) for f in F.fns.values() if f.cls and f.cls.startswith(cls + "::Worker") and f.name.endswith("::customEvent")]
     ck.require(len(ce) == 1, "%s: Worker::customEvent not found" % tag)
     ce = ce[0]
     ck.touch(ce)
@@ -219,18 +219,22 @@ def handoff(ck, proc):
     worker_runs_unlocked(ck, cls, tag, "C03-O3")
     worker_cleared_after_stop(ck, cls, tag, "C03-O4")
     # single event type, no sendEvent
-    for f in F.fns.values():
-        if f.cls and f.cls.startswith(cls):
+    members = F.units_of(lambda f: bool(f.cls) and f.cls.startswith(cls))
+    for f in members:
+        if True:
             for n in f.calls(("QCoreApplication::sendEvent", "QCoreApplication::sendPostedEvents", "QCoreApplication::processEvents")):
                 ck.ob("C03-O4", sitestr(f, n), False, "%s bypasses the posted-event queue" % describe(n)[:60], key="OwnThreadHandler|%s" % n.get("callee").split("::")[-1])
     # writers of m_pendingCount inside this instantiation
-    for f in F.fns.values():
-        if f.cls and f.cls.startswith(cls):
+    inc_pos = {(x.get("l"), x.get("c")) for x in incs} | {(x.get("l"), x.get("c")) for x in dec}
+    for f in members:
+        if True:
             for n in f.calls():
+                if (n.get("l"), n.get("c")) in inc_pos:
+                    continue
                 if n.get("ck") == "member" and is_field(n.get("obj"), OT + "::m_pendingCount") and n.get("constm") is False and n not in incs and n not in dec:
                     ck.ob("C03-O5", sitestr(f, n), False, "pending count also modified by %s" % describe(n), key="m_pendingCount|writer|%s" % strip_tmpl(f.name).split("::")[-1])
     # O6
-    mv = [f for f in F.fn_all(OT + "::moveToOwnThread") if f.cls == cls]
+    mv = [F.flat(f) for f in F.fn_all(OT + "::moveToOwnThread") if f.cls == cls]
     ck.require(len(mv) == 1, "%s: moveToOwnThread not found" % tag)
     mv = mv[0]
     ck.touch(mv)
